@@ -14,8 +14,8 @@ import (
 
 // progress table: calls that consume one unit of a finite input each time they are evaluated
 var progressCalls = map[string]string{
-	"(*" + modPath + "/csv.File).NextRow":                 "each call consumes one CSV record of a finite file",
-	"(" + modPath + "/journal.GtfsrtSource).Next":         "each call consumes one feed of a finite sequence (the property quantifies over finite sequences)",
+	"(*" + modPath + "/csv.File).NextRow":                   "each call consumes one CSV record of a finite file",
+	"(" + modPath + "/journal.GtfsrtSource).Next":           "each call consumes one feed of a finite sequence (the property quantifies over finite sequences)",
 	"(*" + modPath + "/journal.DirectoryGtfsrtSource).Next": "each call consumes at least one file name of a finite listing",
 }
 
